@@ -20,6 +20,10 @@ CLAIMS = {
    text="OidTexts.tla (TLC) enumerates 18432 strings from a token grammar (1..3 arcs over 26 boundary/bad tokens, one bad token per position, dot placement, 2..129 arcs), checks print(parse(s)) = s and canonicity at design level, and classifies each string; every string goes through get_many() and GetIter() on a real socket, and TraceSession.tla requires refusal <=> nothing sent, sent OID octets = OidFromText(s), and the echoed OID rendered back to identical text.",
    note="Strings on which the statement is silent (leading '+', leading zeros, second arc >= 40 under first arc 2) may be refused or sent as exactly the denoted OID.",
    ref="DESIGN.md 5 C08", technique="TLC grammar enumeration with design-level round-trip law + TLC trace validation"),
+ "C15": dict(
+   text="MC_Codec.tla (TLC) establishes the encode/decode laws of the specification's own codec over bounded universes (all signed values of <=1-2 octets, length forms, truncation, OID prefix/order lemmas). The library's INTEGER encoder/decoder is run over every value of 1..2 (thorough 1..3) content octets, neighbourhoods of every +-2^(8k-1)/+-2^(8k) and random i64; OID text->octets->TLV->text over the grammar corpus; whole v1/v2c/v3 request messages are encoded and decoded back by the library; arbitrary i64 also reach the wire through the public API (max_repetitions). TraceCodec.tla / TraceSession.tla judge every record: encoding = the minimal X.690 form computed by the specification, decode(encode(x)) = x, nothing left over.",
+   note="Batched validation (4000 records per event). Messages that do not fit the buffer are outside C15 (see C17).",
+   ref="DESIGN.md 5 C15", technique="TLC-checked codec laws + batched TLC trace validation of the library's encoders/decoders"),
  "C19": dict(
    text="TLC checks delay<=D, slot invariants and the k-window bound on Policer.tla for all phase offsets x gaps (several D); Apalache discharges the inductive invariant for symbolic D and unbounded times; the real RPSPolicer is driven through every transition of the exported graph (get_timeout, wait_sync, wait under a virtual clock) and through random call sequences, and every observed run is judged by TracePolicer.tla at property level.",
    note="Assumes sequential calls on a monotonic clock (the property's hypothesis) and that sleep() sleeps at least what is asked. Window bound for all k follows arithmetically from the inductive invariant.",
